@@ -345,7 +345,8 @@ fn build_files(scn: &Scn, streams: &[(u8, Vec<u8>)], lay: &Layout) -> (Vec<Midas
     let mut files = Vec::new();
     let mut lz4 = Vec::new();
     let mut lo = 0;
-    let t0 = 1_700_000_000u32 + r.below(1000) as u32;
+    // (half of the layouts start where low bytes of the Unix time wrap between files)
+    let t0 = if lay.argv_seed % 2 == 0 { 0x6500_10F8u32 } else { 1_700_000_000u32 } + r.below(1000) as u32 % if lay.argv_seed % 2 == 0 { 4 } else { 1000 };
     for (k, &hi) in bounds.iter().enumerate() {
         let initial = t0 + 10 * k as u32;
         let final_ts = if k + 1 < nf { t0 + 10 * (k as u32 + 1) - r.below(2) as u32 } else { initial + r.below(10) as u32 };
